@@ -916,6 +916,7 @@ void var_opt_sketch<T, A>::decrease_k_by_1() {
     // exact mode, but we have some data
     --k_;
     if (h_ > k_) {
+      filled_data_ = true; // slots 0..k_ all hold items, as when update_warmup_phase() fills up
       transition_from_warmup();
     }
   } else if ((h_ > 0) && (r_ > 0)) {
@@ -928,8 +929,18 @@ void var_opt_sketch<T, A>::decrease_k_by_1() {
     const uint32_t old_final_r_idx = (h_ + 1 + r_) - 1;
     if (old_final_r_idx != k_) throw std::logic_error("gadget in invalid state");
     
-    swap_values(old_final_r_idx, old_gap_idx);
-    filled_data_ = true; // we just filled the gap, and no need to check previous state
+    // the gap may be raw memory (filled_data_ == false), so it cannot simply be swapped with;
+    // and the vacated last slot lies beyond the arrays' used range once k_ is decreased, so
+    // it must not be left holding a constructed item
+    if (filled_data_) {
+      data_[old_gap_idx] = std::move(data_[old_final_r_idx]);
+    } else {
+      new (&data_[old_gap_idx]) T(std::move(data_[old_final_r_idx]));
+      filled_data_ = true; // we just filled the gap
+    }
+    data_[old_final_r_idx].~T();
+    weights_[old_gap_idx] = weights_[old_final_r_idx];
+    marks_[old_gap_idx] = marks_[old_final_r_idx];
 
     // now we pull an item out of H; any item is ok, but if we grab the rightmost and then
     // reduce h_, the heap invariant will be preserved (and the gap will be restored), plus
@@ -956,6 +967,7 @@ void var_opt_sketch<T, A>::decrease_k_by_1() {
     const uint32_t rightmost_r_idx = (1 + r_) - 1;
     swap_values(r_idx_to_delete, rightmost_r_idx);
     weights_[rightmost_r_idx] = -1.0;
+    data_[rightmost_r_idx].~T(); // ejected; the slot is beyond the used range once k_ is decreased
 
     --k_;
     --r_;
